@@ -229,6 +229,14 @@ func (e event) line() string { return fmt.Sprintf("%d %s %s", e.Ts, vh.HxS(e.Msg
 
 const absDate = "2019-01-02 12:34:55"
 
+// realistic nanosecond magnitudes: above 2^53, odd, not multiples of 256 (float64(bigT) = bigT-21, float64(bigT2) = bigT2-1)
+const (
+	bigT  int64 = 1552307683123456789
+	bigT2 int64 = 1500000000000000001
+	maxI  int64 = 9223372036854775807
+	minI  int64 = -9223372036854775808
+)
+
 var absNano int64
 
 // events: messages with case variants, pattern characters, non-UTF-8; field sets with duplicates (first empty, first
@@ -276,6 +284,16 @@ func eventPool() []event {
 		mkEvent(5, "ı", "a", "İ"),
 		mkEvent(5, "Ab", "b", "ab"),
 		mkEvent(5, "ba", "a", "ba"),
+		// around numeric literals of nanosecond magnitude and the int64 extremes
+		mkEvent(bigT-21, "t-21", "a", "t"),
+		mkEvent(bigT-1, "t-1", "a", "t"),
+		mkEvent(bigT, "t", "a", "t"),
+		mkEvent(bigT+1, "t+1", "a", "t"),
+		mkEvent(bigT2-1, "u-1", "a", "u"),
+		mkEvent(bigT2, "u", "a", "u"),
+		mkEvent(bigT2+1, "u+1", "a", "u"),
+		mkEvent(maxI-1, "max-1"),
+		mkEvent(minI+1, "min+1"),
 	}
 }
 
@@ -288,7 +306,13 @@ func q(s string) valT { return valT{strconv.Quote(s), s} }
 
 var strVals = []valT{q(""), q("a"), q("A"), q("ab"), q("a*"), q("*b"), q("[a-c]x"), q("["), q("\\"), q("é"), q("É"), {"10", "10"}, q("10"), q("-5"),
 	q("x y"), q("?"), q("b"), q("zz"), q("*"), q("[^a]*"), q("a\\*"), {"'a'", "a"}, {"ab", "ab"}, q("a[b"), q("??"), q("k"), q("9")}
-var tsVals = []valT{{"10", "10"}, q("10"), q("-5"), {"0", "0"}, q(absDate), q("abc"), q(""), q(" 10 "), q("1e3")}
+var tsVals = []valT{{"10", "10"}, q("10"), q("-5"), {"0", "0"}, q(absDate), q("abc"), q(""), q(" 10 "), q("1e3"),
+	{"1552307683123456789", "1552307683123456789"}, q("1552307683123456789"), {"1500000000000000001", "1500000000000000001"}, q("1552307683123456790"),
+	{"9223372036854775807", "9223372036854775807"}, q("-9223372036854775808"), q("9223372036854775808"), q("+10")}
+
+// literals for the atoms inside larger shapes: small, the date, nanosecond magnitudes, the extremes
+var tsGood = []valT{{"10", "10"}, q("10"), q("-5"), {"0", "0"}, q(absDate), {"1552307683123456789", "1552307683123456789"}, {"1500000000000000001", "1500000000000000001"},
+	{"9223372036854775807", "9223372036854775807"}, q("-9223372036854775808")}
 var operands = []string{"msg", "MSG", "Msg", "ts", "TS", "fields:a", "fields:b", "Fields:a", "FIELDS:A", "fields:zz", "fields:", "fields:fields:a", "tags", "limit", "field:a", "fields:aa"}
 var wrappers = []string{"", "upper", "LOWER", "lower", "Upper", "lower(upper", "upper(lower", "upper(upper", "trim", "upper,2", "lower(trim", "like"}
 var opsAll = []string{"<", ">", ">=", "<=", "!=", "=", "contains", "CONTAINS", "PREFIX", "Prefix", "suffix", "LIKE", "like", "liKe"}
@@ -323,7 +347,7 @@ func single(c *gCond, not bool) *gExpr {
 // atoms usable inside larger shapes (mostly supported ones, so that the connectives are evaluated)
 func goodAtom(rng *vh.Rng) *gCond {
 	if rng.Chance(1, 5) {
-		return atom(rng.PickS([]string{"ts", "TS"}), "", rng.PickS([]string{"<", ">", "<=", ">="}), tsVals[rng.Intn(5)])
+		return atom(rng.PickS([]string{"ts", "TS"}), "", rng.PickS([]string{"<", ">", "<=", ">="}), tsGood[rng.Intn(len(tsGood))])
 	}
 	o := rng.PickS([]string{"msg", "MSG", "fields:a", "fields:b", "fields:zz", "Fields:a"})
 	w := rng.PickS([]string{"", "", "", "upper", "lower", "lower(upper"})
@@ -1310,6 +1334,7 @@ func sectionFiter(rng *vh.Rng) {
 		k := rng.Range(0, 9)
 		perm := rng.Perm(len(pool))
 		runs := rng.Bool()
+		aroundBig := rng.Chance(1, 3)
 		for j := 0; j < k; j++ {
 			e := pool[perm[j]]
 			if runs {
@@ -1317,6 +1342,9 @@ func sectionFiter(rng *vh.Rng) {
 				e = mkEvent(0, v, "a", rng.PickS(sameLen), "b", rng.PickS(sameLen))
 			}
 			e.Ts = int64(j*2) + int64(rng.Intn(2)) + 3 // distinct, around the literal 10
+			if aroundBig {
+				e.Ts += bigT - 12 // distinct, around the literal 1552307683123456789
+			}
 			e.MsgHex, e.FldHex = vh.HxS(e.Msg), vh.HxS(e.Fields)
 			c.Events = append(c.Events, e)
 		}
@@ -1388,6 +1416,9 @@ func sectionFiter(rng *vh.Rng) {
 // end to end
 
 type e2eCase struct {
+	// Retry: the held-cursor scenario — one partition, WaitTimeout > 0 (the server keeps the cursor between the requests),
+	// pages of 2: page 1, page 2, page 2 AGAIN (the same request sent twice: same ReqId, the older position), page 3
+	Retry bool      `json:"retry,omitempty"`
 	Text  string    `json:"text"`
 	Want  string    `json:"want_ast,omitempty"`
 	Range *[2]int64 `json:"range,omitempty"`
@@ -1411,7 +1442,9 @@ func e2eEvents() []e2eEvent {
 	}
 	// timestamps at the literals: 10 is there (i=9); -5 and the date
 	evs = append(evs, e2eEvent{0, -6, "neg6", "a=n"}, e2eEvent{1, -5, "neg5", "a=n"}, e2eEvent{0, -4, "neg4", "a=n"},
-		e2eEvent{1, absNano - 1, "d-1", "a=d"}, e2eEvent{0, absNano, "d", "a=d"}, e2eEvent{1, absNano + 1, "d+1", "a=d"})
+		e2eEvent{1, absNano - 1, "d-1", "a=d"}, e2eEvent{0, absNano, "d", "a=d"}, e2eEvent{1, absNano + 1, "d+1", "a=d"},
+		e2eEvent{0, bigT - 21, "t-21", "a=t"}, e2eEvent{1, bigT - 1, "t-1", "a=t"}, e2eEvent{0, bigT, "t", "a=t"}, e2eEvent{1, bigT + 1, "t+1", "a=t"},
+		e2eEvent{0, bigT2 - 1, "u-1", "a=u"}, e2eEvent{1, bigT2, "u", "a=u"}, e2eEvent{0, bigT2 + 1, "u+1", "a=u"})
 	// partition 2: one batch = one chunk, consecutive records of identical layout (2-byte message, a=<2 bytes>,b=<2 bytes>) that
 	// differ in case / content, with contiguous timestamps so that they are consecutive in the merged stream too
 	seq := [][3]string{{"bx", "bx", "AB"}, {"cx", "cx", "ab"}, {"AB", "AB", "zz"}, {"zz", "zz", "Ab"}, {"ab", "ab", "bx"}, {"ba", "ba", "aB"}, {"Ab", "Ab", "ba"},
@@ -1450,7 +1483,7 @@ func evKey(e *api.LogEvent) string { return fmt.Sprintf("%d|%s|%s", e.Timestamp,
 
 func sectionE2E(rng *vh.Rng, extra []e2eCase) {
 	sec := res.Section("e2e", "spec-search",
-		"in-process server (all components, RPC loop-back): 51 events with distinct timestamps written through the RPC client into three partitions (duplicate, empty and absent fields, non-UTF-8 messages and values, timestamps at the ts literals -1/0/+1; the third partition is one batch of 15 identically laid out records — equal-length messages and field values differing in case/content, contiguous timestamps — so that consecutive stored events reuse the same bytes of the chunk iterator's buffer); for generated expressions (depth <= 3) and a fixed list of boundary expressions: SELECT [RANGE] WHERE e paged with page size 1, 3, 7 or 1000 vs SPEC = the unfiltered SELECT filtered by evalRef (and the range) on the intended AST; unsupported expressions must make the query fail. non-trivial = the filter keeps some but not all events, distinct by (text, range, page)")
+		"in-process server (all components, RPC loop-back): 58 events with distinct timestamps written through the RPC client into three partitions (duplicate, empty and absent fields, non-UTF-8 messages and values, timestamps at the ts literals -1/0/+1; the third partition is one batch of 15 identically laid out records — equal-length messages and field values differing in case/content, contiguous timestamps — so that consecutive stored events reuse the same bytes of the chunk iterator's buffer); for generated expressions (depth <= 3) and a fixed list of boundary expressions: SELECT [RANGE] WHERE e paged with page size 1, 3, 7 or 1000 vs SPEC = the unfiltered SELECT filtered by evalRef (and the range) on the intended AST; unsupported expressions must make the query fail. non-trivial = the filter keeps some but not all events, distinct by (text, range, page)")
 	dir := lrsrv.NewDir()
 	defer os.RemoveAll(dir)
 	srv, err := lrsrv.Start(dir, lrsrv.Opts{})
@@ -1506,6 +1539,8 @@ func sectionE2E(rng *vh.Rng, extra []e2eCase) {
 		`msg like "a*"`, `msg like "["`, `fields:a like "[a-c]x"`, `upper(msg) = "AB"`, `upper(msg) contains "AB"`, `lower(fields:a) prefix "a"`, `upper(fields:a) >= "B"`,
 		`msg contains "a" OR msg contains "b" AND NOT fields:a = "b"`, `(msg contains "a" OR msg contains "b") AND NOT fields:a = "b"`,
 		`NOT (msg contains "a" OR msg contains "b")`, `NOT msg contains "a" OR msg contains "b"`, `tags = "x"`, `msg = "a"`, `ts = 10`, `fields: = "a"`, `trim(msg) contains "a"`,
+		`ts >= 1552307683123456789`, `NOT ts < 1552307683123456789`, `ts <= 1552307683123456789`, `ts > "1552307683123456789"`, `NOT ts >= 1500000000000000001 OR msg = "u"`,
+		`ts < 1500000000000000001`, `ts <= 9223372036854775807 AND ts >= "-9223372036854775808"`,
 		`fields:a > "a" AND fields:a < "b"`, `fields:b <= "10"`, `fields:b >= "9"`, `msg suffix "b"`, `msg prefix ""`, `upper(msg) contains "é"`, `lower(msg) contains "é"`, `lower(msg) = "k"`,
 	}
 	for _, t := range fixed {
@@ -1550,6 +1585,10 @@ func sectionE2E(rng *vh.Rng, extra []e2eCase) {
 			defer wg.Done()
 			defer func() { <-sem }()
 			c := cases[i]
+			if c.Retry {
+				outs[i] = outT{skipped: true, q: c.Text}
+				return
+			}
 			// pre-screen in this process: a filter that panics (or is nil) would kill the in-process server's goroutine
 			if exp, perr := parseExpr(c.Text); perr == nil && exp != nil {
 				var f lql.WhereExpFunc
@@ -1634,7 +1673,9 @@ func sectionE2E(rng *vh.Rng, extra []e2eCase) {
 	for i, c := range cases {
 		o := outs[i]
 		if o.skipped {
-			res.Dist(sec, "panics-not-sent")
+			if !c.Retry {
+				res.Dist(sec, "panics-not-sent")
+			}
 			continue
 		}
 		if first[i] == -1 {
@@ -1676,7 +1717,156 @@ func sectionE2E(rng *vh.Rng, extra []e2eCase) {
 		}
 	}
 	res.Sample(map[string]interface{}{"section": "e2e", "query": outs[len(outs)-1].q, "returned": len(outs[len(outs)-1].got), "of": len(all)})
+	e2eRetry(srv, sec, cases, rng)
 	res.Done(sec)
+}
+
+// e2eRetry: a client that did not get the answer to page 2 of a filtered, server-held cursor sends the request for page 2
+// again (same ReqId, the position of the end of page 1, which is OLDER than where the held cursor stands). Whatever the
+// cursor buffered at its newer position must not leak into the retried page: every page is the corresponding slice of the
+// filter (SPEC) of the unfiltered read of that partition.
+func e2eRetry(srv *lrsrv.Srv, sec *vh.Section, cases []e2eCase, rng *vh.Rng) {
+	const src = `select from c05="p2" `
+	all, err := queryAll(srv, src+"limit 1000", 1000)
+	if err != nil || len(all) == 0 {
+		res.Note("e2e retry: unfiltered read of the single partition failed: %v", err)
+		return
+	}
+	tb := newTables()
+	var sb strings.Builder
+	fmt.Fprintf(&sb, "%d", len(all))
+	for _, e := range all {
+		f, _ := field.NewFieldsFromKVString(e.Fields)
+		ev := event{Ts: e.Timestamp, Msg: e.Message, Fields: string(f)}
+		tb.addEvent(ev)
+		sb.WriteString(" " + ev.line())
+	}
+	// candidates: the explicit retry cases first (replay / corpus), then texts of this run
+	var texts []e2eCase
+	seen := map[string]bool{}
+	for _, c := range cases {
+		if c.Retry && !seen[c.Text] {
+			seen[c.Text] = true
+			texts = append(texts, c)
+		}
+	}
+	onlyExplicit := len(cases) == 1 && cases[0].Retry
+	if !onlyExplicit {
+		for _, t := range []string{`lower(msg) contains "a"`, `upper(msg) prefix "A"`, `NOT upper(msg) = "AB"`, `NOT upper(fields:a) = "AB"`, `lower(fields:b) suffix "b"`,
+			`msg like "?b" OR msg like "a?"`, `fields:a >= "a"`, `NOT msg = "zz"`, `ts >= 41 AND NOT fields:b = "ab"`, `msg contains "b" OR msg contains "a" OR msg contains "x"`} {
+			if !seen[t] {
+				seen[t] = true
+				texts = append(texts, e2eCase{Text: t, Retry: true})
+			}
+		}
+		for _, c := range cases {
+			if len(texts) >= 60 {
+				break
+			}
+			if !seen[c.Text] && c.Range == nil {
+				seen[c.Text] = true
+				texts = append(texts, e2eCase{Text: c.Text, Want: c.Want, Retry: true})
+			}
+		}
+	}
+	var lines []string
+	first := make([]int, len(texts))
+	exps := make([]*lql.Expression, len(texts))
+	for i, c := range texts {
+		exp, perr := parseExpr(c.Text)
+		if perr != nil || exp == nil {
+			first[i] = -1
+			continue
+		}
+		exps[i] = exp
+		tb.addExpr(exp)
+	}
+	lines = append(lines, tb.lines...)
+	for i, c := range texts {
+		if first[i] == -1 {
+			continue
+		}
+		first[i] = len(lines)
+		lines = append(lines, "expr "+realAstString(exps[i]))
+		if c.Want != "" {
+			lines = append(lines, "specexpr "+c.Want)
+		} else {
+			lines = append(lines, "specexpr "+realAstString(exps[i]))
+		}
+		lines = append(lines, fmt.Sprintf("spec.filter %d %d %s", int64(model.MinTimestamp), int64(model.MaxTimestamp), sb.String()))
+	}
+	ans, err := vh.Batch(args.Driver, lines)
+	if err != nil {
+		res.Fatal(args.Out, "driver: %v", err)
+	}
+	ran := 0
+	for i, c := range texts {
+		if first[i] == -1 {
+			continue
+		}
+		a := ans[first[i]+2]
+		if !strings.HasPrefix(a, "ok") {
+			continue // unsupported: covered by the plain e2e comparison
+		}
+		var want []string
+		for _, f := range strings.Fields(a)[1:] {
+			k, _ := strconv.Atoi(f)
+			want = append(want, evKey(all[k]))
+		}
+		if len(want) < 7 {
+			continue // the scenario needs a matching event behind page 3 (and no page may hit the end: it would block WaitTimeout)
+		}
+		// pre-screen as in the plain comparison: a panicking filter must not reach the server
+		if pmsg := vh.Recover(func() {
+			f, berr := lql.BuildWhereExpFuncByExpression(exps[i])
+			if berr == nil {
+				for _, e := range all {
+					fl, _ := field.NewFieldsFromKVString(e.Fields)
+					f(&model.LogEvent{Timestamp: e.Timestamp, Msg: []byte(e.Message), Fields: fl})
+				}
+			}
+		}); pmsg != "" {
+			continue
+		}
+		ran++
+		ask := func(rq api.QueryRequest) ([]string, api.QueryRequest, error) {
+			var qr api.QueryResult
+			if err := srv.Client.Query(context.Background(), &rq, &qr); err != nil {
+				return nil, rq, err
+			}
+			if qr.Err != nil {
+				return nil, rq, qr.Err
+			}
+			var ks []string
+			for _, e := range qr.Events {
+				ks = append(ks, evKey(e))
+			}
+			return ks, qr.NextQueryRequest, nil
+		}
+		q := src + "where " + c.Text
+		p1, n1, e1 := ask(api.QueryRequest{Query: q, Limit: 2, WaitTimeout: 1})
+		p2, _, e2 := ask(n1)
+		p2r, n2r, e3 := ask(n1) // the same request again: same ReqId, the older position
+		p3, _, e4 := ask(n2r)
+		got := fmt.Sprintf("%v | %v | again %v | %v", p1, p2, p2r, p3)
+		exp := fmt.Sprintf("%v | %v | again %v | %v", want[0:2], want[2:4], want[2:4], want[4:6])
+		key := ""
+		if e1 == nil && e2 == nil && e3 == nil && e4 == nil {
+			key = "retry|" + c.Text
+		}
+		res.Eval(sec, key)
+		res.Dist(sec, "retry-held-cursor")
+		if e1 != nil || e2 != nil || e3 != nil || e4 != nil {
+			res.SpecFail(vh.SpecFailure{Section: "e2e", Kind: "rejected-valid", Input: e2eCase{Text: c.Text, Want: c.Want, Retry: true}, Impl: fmt.Sprint(e1, e2, e3, e4), Spec: exp,
+				What: "a page request of a held filtered cursor fails"})
+			continue
+		}
+		if got != exp {
+			res.SpecFail(vh.SpecFailure{Section: "e2e", Kind: "wrong-result", Input: e2eCase{Text: c.Text, Want: c.Want, Retry: true}, Impl: got, Spec: exp,
+				What: "pages of a filtered cursor the server holds (WaitTimeout > 0), page 2 requested twice: the pages are not the corresponding slices of the matching events of the unfiltered read — an event the filter buffered at the newer position is delivered in the retried page (altered / skipped / duplicated events)"})
+		}
+	}
+	res.Note("e2e retry: %d held-cursor retry scenarios run", ran)
 }
 
 // ---------------------------------------------------------------------------------------------
